@@ -25,7 +25,7 @@ def run_check(tier, seed):
     if not ok:
         broken.append({'kind': 'harness-build', 'log': out[-3000:]})
         return finish(ev, PROP, findings, broken)
-    n = 450 if tier == 'quick' else 8000
+    n = 1000 if tier == 'quick' else 8000
     rng = random.Random(seed)
     # well-formed requests only (the property quantifies over field valuations), comfortable capacity
     cases = [c for c in S.gen_cases(rng, n, frac_malformed=0.0, cap=1 << 17) if c['wf']]
